@@ -310,6 +310,27 @@ func (r *Rng) genFwCase(c *Ctx) fwCase {
 	k := r.Intn(100)
 	var name string
 	switch {
+	case len(doms) > 0 && r.Chance(4):
+		// the LONGEST names there are: 253 or 254 bytes of text with the trailing dot (255 octets on the wire is the
+		// limit), below a rule domain - labels of 63 bytes in front of it, the last one cut to fit
+		d := strings.Join(doms[r.Intn(len(doms))], ".") + "."
+		want := 253 + r.Intn(2)
+		var pre []string
+		left := want - len(d)
+		for left > 1 {
+			n := 63
+			if left-1 < n {
+				n = left - 1
+			}
+			pre = append(pre, strings.Repeat(string(rune('a'+r.Intn(26))), n))
+			left -= n + 1
+		}
+		if len(pre) > 0 {
+			name = strings.Join(pre, ".") + "." + d
+		} else {
+			name = d
+		}
+		c.Stat(fmt.Sprintf("name:longest-%d", len(name)))
 	case len(doms) > 0 && k < 25: // exactly a rule domain
 		name = strings.Join(doms[r.Intn(len(doms))], ".") + "."
 		c.Stat("name:equal")
@@ -451,7 +472,7 @@ func init() {
 		for i := 0; i < c.n; i++ {
 			fc := r.genFwCase(c)
 			runLine(fwCaseLine(fc))
-			if r.Chance(25) && len(fc.name) > 1 && len(fc.name) < 200 && !strings.Contains(fc.name, "..") {
+			if r.Chance(25) && len(fc.name) > 1 && len(fc.name) <= 254 && !strings.Contains(fc.name, "..") {
 				// the same name as a WIRE query through query.New: clean, with an EDNS record, and with an
 				// additional section that does not parse (the question is fine: routing must not change)
 				labels := strings.Split(strings.TrimSuffix(fc.name, "."), ".")
